@@ -194,6 +194,9 @@ func init() {
 		// contexts when a batch fails): keeper calls made from within end-of-block and response processing
 		runs = append(runs, RunSpec{Name: "mod-reentrant", Sc: scModReentrant(defaultParams(), []Template{tMod1, tMod2, tModPoor},
 			AlphaOpts{RespKinds: []string{"ok", "bad"}, ModOps: []string{"mpause", "mstart"}}, d, b, m), Oracles: []Oracle{oracleC09{}}})
+		// the owning module creates two contexts while handling one message (same transaction hash and message index)
+		runs = append(runs, RunSpec{Name: "mod-two-creates-in-one-message", Sc: scMod(defaultParams(), []Template{tMod1, tModDup},
+			AlphaOpts{RespKinds: []string{"ok"}, ModOps: []string{"mpause", "mkill"}}, d-1, b-1, m), Oracles: []Oracle{oracleC09{}}})
 		runs = append(runs, RunSpec{Name: "mod-kill-in-response-callback", Sc: scModSelfKill(defaultParams(), []Template{tMod1, tMod2},
 			AlphaOpts{RespKinds: []string{"ok", "bad"}, ModOps: []string{"mpause", "mstart"}}, d-1, b-1, m), Oracles: []Oracle{oracleC09{}}})
 		return runs
@@ -320,6 +323,7 @@ func init() {
 			{Name: "bind-ops+slash", Sc: scBind(defaultParams(), bindOpsFull(), []Template{tSlash}, []string{"bad"}, 6+d, 4, 3), Oracles: o},
 			{Name: "bind-ops+slash-all", Sc: scBind(paramSet("0.5", "1"), bindOpsSmall(), []Template{tSlash2}, []string{"bad"}, 6+d, 4, 2), Oracles: o},
 			{Name: "slash-after-refund", Sc: scBind(defaultParams(), []Action{actBind("a", "P1", "O1", 10, "p1", 1), actDisable("a", "P1", "O1"), actRefund("a", "P1", "O1")}, []Template{tSlash3}, []string{"bad"}, 8+d, 5, 2), Oracles: o},
+			{Name: "huge-deposits", Sc: scHugeDeposits(defaultParams(), 6+d, 3, 4), Oracles: o},
 		}
 	}})
 	register(&CheckSpec{Prop: "C17", Runs: func(tier string) []RunSpec {
